@@ -228,7 +228,7 @@ def mc_and_replay(rep, binp, module, consts, what, kind='dec', workers=4, r=None
             real[cur] = []
         elif e['ev'] in ('D', 'E') and cur is not None:
             real[cur].append(e)
-    keys = ('res', 'ml', 'ma', 'read', 'written', 'out', 'had', 'enc', 'cap', 'q') if kind == 'dec' else ('res', 'um', 'read', 'written', 'out', 'had', 'pending')
+    keys = ('res', 'ml', 'ma', 'read', 'written', 'out', 'had', 'enc', 'cap', 'q') if kind == 'dec' else ('res', 'um', 'read', 'written', 'out', 'had', 'pending', 'cap', 'q')
     drift = 0
     first = None
     ncalls = 0
@@ -385,7 +385,7 @@ def run_mc_set(rep, binp, configs, what, module='MC_DecQ', kind='dec'):
                 real[cur] = []
             elif e['ev'] in ('D', 'E') and cur is not None:
                 real[cur].append(e)
-    keys = ('res', 'ml', 'ma', 'read', 'written', 'out', 'had', 'enc', 'cap', 'q') if kind == 'dec' else ('res', 'um', 'read', 'written', 'out', 'had', 'pending')
+    keys = ('res', 'ml', 'ma', 'read', 'written', 'out', 'had', 'enc', 'cap', 'q') if kind == 'dec' else ('res', 'um', 'read', 'written', 'out', 'had', 'pending', 'cap', 'q')
     for run, hists, start in spans:
         drift = 0
         first = None
@@ -455,7 +455,8 @@ def plan_C02(rep, seed, tier):
     rv(rep, binp, 'dec-random', seed, tier)
     rv(rep, binp, 'dec-deep', seed, tier, shards=32 if tier == 'thorough' else 16)
     run_mc_set(rep, binp, MC_CHUNKING_THOROUGH if tier == 'thorough' else [MC_CHUNKING_QUICK[i] for i in (0, 1, 2, 4, 5, 7, 8, 9, 10, 11)],
-               'Layer I x DecoderMonitor: all Stage/Invoke interleavings, invariant NoViolation (prefix rule, completeness, spans, progress, no panic)')
+               'Layer I x DecoderMonitor: all Stage/Invoke interleavings, invariant NoViolation (prefix rule, completeness, spans, progress, no panic)',
+               module='MC_DecQ' if tier == 'thorough' else 'MC_Dec')
     rep.cov['rule'] = ('all cut sets of every stream of length <= 3 (thorough: 4, plus seeded 5..7) over the per-encoding class alphabet x capacities min..min+3 and 64 '
                        'x 4 sinks x replacement x empty final call; seeded random histories with re-cuts, empty calls and queried capacities')
 
@@ -526,6 +527,17 @@ def plan_C07(rep, seed, tier):
     mcq = (MC_CHUNKING_THOROUGH + MC_BOM_THOROUGH) if tier == 'thorough' else [MC_CHUNKING_QUICK[i] for i in (0, 2, 3, 7)] + [MC_BOM_QUICK[i] for i in (0, 2, 5)]
     run_mc_set(rep, binp, mcq, 'Layer I incl. the max_*_buffer_length formulas (MaxLen.tla): InvokeQueried issues every call with the formula value in '
                'every reachable state; the monitor budget conjunct (C07.insufficient) is part of NoViolation; replay uses the REAL query and compares its value with the formula')
+    mce = MC_ENC_THOROUGH if tier == 'thorough' else [
+        E('GBK', 'utf8', True, 2, [14, 15, 64], [0x41, 0x80, 0x20AC, 0x4E00, 0x1F4A9]),
+        E('gb18030', 'utf16', False, 2, [4, 5, 64], [0x41, 0x80, 0x4E00, 0xE5E5, 0x1F4A9, 0xD83D]),
+        E('ISO-2022-JP', 'utf16', False, 2, [4, 5, 64], [0x41, 0xA5, 0x3042, 0xFF61, 0x1F4A9, 0xD83D]),
+        E('ISO-2022-JP', 'utf8', True, 2, [14, 15, 64], [0x41, 0x5C, 0x3042, 0xFF61, 0xE9]),
+        E('Shift_JIS', 'utf8', False, 2, [4, 5, 64], [0x41, 0xA5, 0xFF61, 0x3042, 0x1F4A9]),
+        E('UTF-8', 'utf16', False, 2, [4, 5, 64], [0x41, 0xE9, 0x20AC, 0x1F4A9, 0xDCA9]),
+        E('windows-1252', 'utf16', True, 2, [14, 15, 64], [0x41, 0xE9, 0x20AC, 0x3042, 0x1F4A9]),
+    ]
+    run_mc_set(rep, binp, mce, 'Layer I incl. the encoder max_buffer_length_* formulas (ImplEncoder!EncoderMax): InvokeQueried in every reachable state; '
+               'replay uses the REAL query and compares its value with the formula', module='MC_Enc', kind='enc')
     rep.cov['rule'] = ('calls of the cut-set / BOM-matrix histories are issued with dst.len() == the value the matching max_*_buffer_length query returns on '
                        'the same converter in its current state for the number of units passed (every call, or alternating with small capacities 0..min+1 so that '
                        'states behind an OutputFull - pending BB, half-read escapes, pending leads - are reached); OutputFull on a queried call is a violation')
@@ -573,7 +585,8 @@ def plan_C10(rep, seed, tier):
     rv(rep, binp, 'dec-bom', seed, tier, shards=32)
     rv(rep, binp, 'forbom', seed, tier, shards=4)
     run_mc_set(rep, binp, MC_BOM_THOROUGH if tier == 'thorough' else MC_BOM_QUICK,
-               'Layer I (DecoderLifeCycle automaton) x DecoderMonitor with the BOM wrapper oracle: all splits of potential BOMs, last anywhere, invariant NoViolation')
+               'Layer I (DecoderLifeCycle automaton) x DecoderMonitor with the BOM wrapper oracle: all splits of potential BOMs, last anywhere, invariant NoViolation',
+               module='MC_DecQ' if tier == 'thorough' else 'MC_Dec')
     rep.cov['rule'] = ('40 nominal encodings x 3 BOM modes x every prefix of length 0..3 over {EF,BB,BF,FE,FF,41,80} x 5 tails x all cut sets of the first 4 bytes '
                        'x capacities min..min+2 and 64 x both raw sinks x replacement x empty final call')
 
